@@ -367,6 +367,7 @@ def apply_bound(ex, st, k, args, site):
     for rc in cl.raises:
         s2 = st.copy()
         if not rc.unchanged: havoc(s2, k)
+        if getattr(rc, 'impose', None) is not None: rc.impose(View(st, args), View(s2, args))
         if rc.when is not None: s2.assume(rc.when)
         excv = Val.Obj(fresh('exc', IntSort()))
         if rc.ensures is not None:
